@@ -30,7 +30,8 @@ REQUIRED_OBS = ["must_verdicts", "must_not_verdicts", "repeat_frames", "raising_
                 "zone_to_ac_forwarding", "unsubscribed_silent", "double_subscription",
                 "after_reinit", "single_field_changes", "self_unsubscribed_in_callback",
                 "bound_method_subscribers", "subscribers_failing_when_called",
-                "same_callable_on_both_ac_channels", "subscriber_kept_across_reinit"]
+                "same_callable_on_both_ac_channels", "subscriber_kept_across_reinit",
+                "subscribed_during_init_and_entity_changed"]
 SOAK = True   # also judged by the whole-run monitors of the soak sessions (vf/soak.py)
 BUDGET = {"quick": 100, "thorough": 1500}
 
